@@ -29,7 +29,7 @@ def gate(draw, n, names):
     """One gate from `names` that fits on n qubits."""
     fit = []
     for nm in names:
-        if nm in ("MCX", "MCZ"):
+        if nm in ("MCX", "MCZ", "MCTX"):
             need = 3 if nm == "MCX" else 2
             if n >= need + (1 if nm == "MCX" else 0):
                 fit.append(nm)
@@ -41,9 +41,9 @@ def gate(draw, n, names):
     if nm == "MCX":
         k = draw(st.integers(3, min(n - 1, 5)))  # controls
         return ["MCX", draw(qubits(n, k + 1)), None]
-    if nm == "MCZ":
+    if nm in ("MCZ", "MCTX"):
         k = draw(st.integers(1, min(n - 1, 4)))
-        return ["MCZ", draw(qubits(n, k + 1)), None]
+        return [nm, draw(qubits(n, k + 1)), None]
     qs = draw(qubits(n, ARITY[nm]))
     p = draw(st.sampled_from(ANGLES)) if nm in ("P", "CP") else None
     return [nm, qs, p]
@@ -73,6 +73,8 @@ def append_gate(qc, nm, qs, p, G=None):
         qc.append(G.MCX(len(qs) - 1), list(qs))
     elif nm == "MCZ":
         qc.append(G.MCtrl(G.Z(), len(qs) - 1), list(qs))
+    elif nm == "MCTX":  # multi-controlled X built with the generic mctrl() (not the MCX class)
+        qc.append(G.MCtrl(G.X(), len(qs) - 1), list(qs))
     elif nm == "SWAP":
         qc.append(G.Swap(), list(qs))
     elif nm in ("P", "CP"):
@@ -89,7 +91,7 @@ def sig_of_case_gate(g):
         "P": ("P", 0), "I": ("I", 0), "CX": ("X", 1), "CZ": ("Z", 1), "CP": ("P", 1), "CCX": ("X", 2),
         "SWAP": ("SWAP", 0), "BARRIER": ("BARRIER", 0),
     }
-    if nm == "MCX":
+    if nm in ("MCX", "MCTX"):
         return ["X", len(qs) - 1, list(qs), None]
     if nm == "MCZ":
         return ["Z", len(qs) - 1, list(qs), None]
